@@ -93,7 +93,7 @@ class CMRF(Distribution):
             raise NotImplementedError("Gradient not implemented for distribution {} with geometry {}".format(self,self.geometry))
 
         if not callable(self.location): # for prior
-            diff = self._diff_op._matrix @ val
+            diff = self._diff_op._matrix @ (val-self.location)
             return (-2*diff/(diff**2+self.scale**2)) @ self._diff_op._matrix
         else:
             warnings.warn('Gradient not implemented for {}'.format(type(self.location)))
